@@ -252,7 +252,9 @@ func c17Run(c c17Case) error {
 		ev.NonTrivial(fmt.Sprintf("%v|%v", args, c.FileWords))
 	}
 	ev.Class("sub=" + c.Sub)
-	ev.Sample("c17", 5, c)
+	if len(c.FileWords) < 100 {
+		ev.Sample("c17", 5, c)
+	}
 	desc := fmt.Sprintf("opgen %s -> exit %d, stdout %q", strings.Join(args, " "), out.Code, trunc(out.Stdout, 200))
 
 	// usage errors
@@ -431,6 +433,16 @@ func c17Gen(t *rapid.T) c17Case {
 		switch rapid.IntRange(0, 5).Draw(t, "listkind") {
 		case 0:
 			c.Flags = append(c.Flags, cliFlag{Name: "list", Value: rapid.SampledFrom([]string{"words", "syllables", "syllables", "nouns"}).Draw(t, "list"), Style: style()})
+		case 3:
+			if rapid.IntRange(0, 9).Draw(t, "bigfile") == 0 {
+				// a big list: more than a megabyte of words
+				c.FileWords = make([]string, 0, 150000)
+				for i := 0; i < 150000; i++ {
+					c.FileWords = append(c.FileWords, fmt.Sprintf("w%07d", i))
+				}
+				c.FileSep = "\n"
+				c.Flags = append(c.Flags, cliFlag{Name: "file", Style: style()})
+			}
 		case 1, 2:
 			n := rapid.IntRange(0, 8).Draw(t, "nfile")
 			c.FileWords = []string{}
